@@ -83,6 +83,7 @@ func runC11(tier string, r *rng) {
 		runC11With(withMetrics)
 	}
 	c11Gossip()
+	c11Sequence()
 	for _, restarts := range []int{0, 1, 2, -1} {
 		c11Restart(restarts)
 	}
@@ -366,4 +367,65 @@ func c11Restart(restarts int) {
 		restarts = -1
 	}
 	emit("C11 kind=restart restarts=%d => lifecycle=%s local=%s verifierasked=%d delivered=%s crashed=%d", restarts, lifecycle, local, b2i(askedLocal), d, crashed)
+}
+
+// c11Sequence: what ONE Subscriber does with a message must not depend on earlier messages or on refused registrations.
+//   - refused: SetVerifier(A) succeeds, SetVerifier(B) is refused; A rejects what B would accept: the message is rejected.
+//   - after-reject: a remote header is hard-rejected by the verifier (which looked at its hash); the next remote header is
+//     accepted: what is delivered is exactly that second header.
+func c11Sequence() {
+	ctx := context.Background()
+	chain := vhdr.Chain("A", 4, time.Now().Add(-time.Minute).UnixNano(), 1e9, 0)
+	topic := "t"
+	verdictOf := func(sub *p2p.Subscriber[*vhdr.Header], msg *pubsub.Message) (v string) {
+		defer func() {
+			if recover() != nil {
+				v = "CRASH"
+			}
+		}()
+		return map[pubsub.ValidationResult]string{
+			pubsub.ValidationAccept: "accept", pubsub.ValidationIgnore: "ignore", pubsub.ValidationReject: "reject"}[sub.VerifVerifyMessage(ctx, "", msg)]
+	}
+	remote := func(h *vhdr.Header) *pubsub.Message {
+		b, _ := h.MarshalBinary()
+		return &pubsub.Message{Message: &pubsub_pb.Message{Data: b, Topic: &topic}}
+	}
+	// refused second registration
+	sub, err := p2p.NewSubscriber[*vhdr.Header](nil, nil)
+	if err != nil {
+		panic(err)
+	}
+	hard := &header.VerifyError{Reason: errors.New("scripted hard failure")}
+	e1 := sub.SetVerifier(func(context.Context, *vhdr.Header) error { return hard })
+	e2 := sub.SetVerifier(func(context.Context, *vhdr.Header) error { return nil })
+	v := verdictOf(sub, remote(chain[0]))
+	emit("C11 kind=sequence sub=refused => first=%s second=%s verdict=%s delivered=-", errs(e1), errs(e2), v)
+	// a rejected message, then an accepted one
+	sub2, err := p2p.NewSubscriber[*vhdr.Header](nil, nil)
+	if err != nil {
+		panic(err)
+	}
+	_ = sub2.SetVerifier(func(_ context.Context, h *vhdr.Header) error {
+		_ = h.Hash()
+		if h.H == 1 {
+			return hard
+		}
+		return nil
+	})
+	for round := 0; round < 20; round++ { // (an object pool may drop or keep entries: several rounds)
+		v1 := verdictOf(sub2, remote(chain[0]))
+		m2 := remote(chain[1+round%3])
+		v2 := verdictOf(sub2, m2)
+		deliv := "-"
+		if v2 == "accept" {
+			deliv = "wrong"
+			if h, ok := m2.ValidatorData.(*vhdr.Header); ok && sameHeader(h, chain[1+round%3]) && h.H == chain[1+round%3].H {
+				deliv = "same"
+			}
+		}
+		if round == 19 || v1 != "reject" || v2 != "accept" || deliv != "same" {
+			emit("C11 kind=sequence sub=afterreject => first=%s second=ok verdict=%s delivered=%s", v1, v2, deliv)
+			break
+		}
+	}
 }
